@@ -20,6 +20,16 @@ RULE = ("fn 1: histories recorded from 1..64 goroutines (8 fixed sizes + random 
         "fn 2: single-goroutine histories: 15 fixed scripts (recycle, double release then two acquires, stale release after re-acquire, release nil, GC) "
         "x 10 formats + random scripts of 5..300 operations, replayed strictly (a new id is pooled or exactly counter+1). "
         "fn 3: fmt.Sprintf(format, id) for the 10 formats x boundary and random uint64 ids. "
+        "Format-length family (classes sprintflen / seqlen / conclen; the property quantifies over all formats, also those that render to texts longer "
+        "than a one-byte length prefix can carry): literal prefixes of 0, 1, 200, every length 245..260, 300, 1000 and 70000 bytes followed by %d, plus "
+        "10 shapes whose one-digit text is exactly 255 bytes (%d in the middle / first / twice = %!d(MISSING), no verb = %!(EXTRA uint64=N), %%%d, %d%%, "
+        "trailing % = %!(NOVERB), 127 and 255 two-byte code points + %d); only literal text, %d and %% are used because that is what the model renders as fmt does. "
+        "Each format: fn 3 on 12 boundary ids; fn 2 scripts hold 12 / release all / hold 12 again (recycled ids), the same with two forced GCs in between "
+        "(fresh ids 13..24), 12 x (acquire, release, GC, GC) = one holder at a time but ids 1..13, and for the lengths around 255 hold 120 / release / GC / hold 12 "
+        "(three-digit ids); fn 1 histories with 4 goroutines x burst 4 x 2 rounds with GCs (16 names held at once, ids up to ~40) and, around 255 and for "
+        "0/200/300, 32 goroutines x burst 4 (128 names held at once, half of the histories keep them until the final read-back); the 70000-byte format "
+        "with 12 names held at once (sequential and 4 goroutines x burst 3).  A subset runs in the -race build.  Thorough adds 12 more lengths "
+        "(2..65536), 1100 names held at once around 255, random scripts and 2 repetitions with random goroutine counts. "
         "Concurrent histories depend on the scheduler, so a seed reproduces the generator choices, not the interleaving; the recorded history in the "
         "case file / replay file is the concrete input of the monitor. Non-trivial = at least 3 events; distinct by (fn, input).")
 TRUSTED = ["Coq 8.16.1 kernel + vm_compute (no native_compute)",
@@ -33,12 +43,13 @@ ASSUMPTIONS = ["sync.Pool (Get/Put) and sync/atomic.AddUint64 are linearizable: 
                "a Name object is used by one goroutine at a time (the struct is not synchronised): Release(h) = guard; Put; clear is one step for the handle h; "
                "Names are only released to the pool they came from",
                "fewer than 2^64 ids are minted (atomic.AddUint64 wraps to 0 after 2^64 mints: stated as hypothesis `mints ls < two64`, the wrap itself is in the model)",
-               "fmt.Sprintf is modelled for formats of literal text, %d and %% (incl. %!d(MISSING), %!(NOVERB), %!(EXTRA uint64=N)); compared with fmt on every run (fn 3)",
+               "fmt.Sprintf is modelled for formats of literal text, %d and %% (incl. %!d(MISSING), %!(NOVERB), %!(EXTRA uint64=N)); compared with fmt on every run (fn 3), also for texts of 1..70020 bytes; other verbs (%x, %05d, %v, ...) are NOT modelled (rendered as an invalid code point) and not generated: for them only C18_unique_texts_any_format applies, under the hypothesis that the rendering is injective in the id",
                "the stamped order (Acquire after return, Release before call) shrinks every holding interval, so the monitor never raises a false alarm; "
                "a real overlap shorter than the stamping delay can go unobserved in one run"]
 LEVEL_TEXT = ("Machine-checked theorems over ALL histories of the modelled steps, for any number of threads: the invariant (pooled, in-flight and held ids "
               "pairwise distinct, all in 1..counter, never 0) holds initially and is preserved by every step, hence in every reachable state "
-              "(C18_invariant_reachable); no two held names share an id or a text, text = format applied to id (C18_unique_holders, C18_text_injective); "
+              "(C18_invariant_reachable); no two held names share an id or a text, text = format applied to id (C18_unique_holders, C18_text_injective: every format of literal text, %d, %% "
+              "of any length; C18_unique_texts_any_format: any rendering whatsoever that is injective on 1..2^64-1); "
               "release makes the id available and clears the name (C18_release); double release / release of nil / of a cleared name are no-ops "
               "(C18_release_idempotent, C18_release_nil); a replayed history that the monitor accepts ends in an invariant state (C18_replay_sound). "
               "Counter-models show the guard and the clearing are what the proof rests on (C18_noguard_refuted, C18_noclear_refuted, C18_shared_name_refuted, C18_wrap_refuted).")
